@@ -401,6 +401,34 @@ Section Spec.
     end.
 End Spec.
 
+(* the abstraction of an Io sub-db: the values stored under user key k, in cursor order *)
+Definition is_key (k : bytes) (e : bytes * bytes) : bool :=
+  match unsuffix (fst e) with Ok (ck, _) => bytes_eqb ck k | Exc _ => false end.
+Definition abs_io (d : dbb) (k : bytes) : list bytes := map snd (filter (is_key k) d).
+
+(* dictionary histories; [key o] is the dictionary key an op addresses *)
+Fixpoint spec_run_io {K} (keqb : K -> K -> bool) (set : bool) (key : op -> K)
+  (s : K -> list bytes) (ops : list op) : list (res rv) :=
+  match ops with
+  | [] => []
+  | o :: ops' => let (s', r) := spec_io keqb set s o (key o) in r :: spec_run_io keqb set key s' ops'
+  end.
+Fixpoint spec_run_plain {K} (keqb : K -> K -> bool) (key : op -> K)
+  (s : K -> option bytes) (ops : list op) : list (res rv) :=
+  match ops with
+  | [] => []
+  | o :: ops' => let (s', r) := spec_plain keqb s o (key o) in r :: spec_run_plain keqb key s' ops'
+  end.
+
+(* how many ordinals an op can consume *)
+Definition weight (o : op) : N :=
+  match o with
+  | OAdd _ _ => 1
+  | OPut _ vs | OPin _ vs => N.of_nat (length vs)
+  | _ => 0
+  end.
+Definition weights (ops : list op) : N := fold_right (fun o a => weight o + a) 0 ops.
+
 Definition op_key (o : op) : list bytes :=
   match o with
   | OPut k _ | OPin k _ | OAdd k _ | OGet k | OGetFirst k | OGetLast k | OPop k | ORem k
